@@ -144,6 +144,12 @@ let run shape_str parse_shape parse_doc (op : string) (a : string array) : strin
                         | DUnicode -> "unicode" | DCtrl -> "ctrl" | DNesting -> "nesting" | DSyntax -> "syntax")
             (int_of_n x) (int_of_n y)) pr.pr_diags))
   | "from_str" -> Some (show_tout shape_str (from_str_m (cfg_of a 2) (text_of_hex a.(1))))
+  | "depth_walk" ->
+      (* frames of parse_cst/parse_rule/parse_member/parse_token simultaneously active (Model/Depth.v) *)
+      let src = text_of_hex a.(1) in
+      let (_, pr) = parse_text cfg_now src in
+      Some (Printf.sprintf "D %d" (int_of_nat (walk_depth pr.pr_cst src)))
+  | "depth_value" -> Some (Printf.sprintf "D %d" (int_of_nat (value_depth (parse_doc a.(1)))))
   | "from_sources_text" ->
       Some (show_tout shape_str (from_sources_m cfg_now (List.map text_of_hex (List.tl (Array.to_list a)))))
   | "superset_text" -> Some (show_tbool shape_str (is_superset_m cfg_now (parse_shape a.(1)) (text_of_hex a.(2))))
